@@ -140,6 +140,8 @@ class Rig:
             self.tasks[k].install_task(delta=a * self.unit)
         elif op == "rec":
             self.tasks[k].install_task()
+        elif op == "reoff":
+            self.tasks[k].install_task(offset=a * 1000.0 * self.unit)      # (an explicit offset, 0 included)
         elif op == "suspend":
             self.tasks[k].suspend_task()
         elif op == "resume":
@@ -178,6 +180,7 @@ class Rig:
             "out": [list(x) for x in self.fired],
             "called": list(self.called),
             "submitted": list(self.submitted),
+            "off": [int(round((getattr(self.tasks[k], "taskIntervalOffset", 0) or 0) / 1000.0 / self.unit)) for k in self.K],
             "mgr": task_module._task_manager is not None,
             "early": [t.k for t in task_module._unscheduled_tasks if hasattr(t, "k")] if task_module._task_manager is None else [],
         }
@@ -239,7 +242,7 @@ def tla_set(s):
 
 
 def cfg_for(c, mode, traises_sets="{{}}", fraises_sets="{{}}", times="{1, 2}", deltas="{0, 1}", steps="{0, 1, 2}",
-            maxlevel=6, drop=False, props=True, ticks="{}"):
+            maxlevel=6, drop=False, props=True, ticks="{}", offgrid="{}"):
     rec = c["rec"]
     n = max(c["K"])
     inter = "[k \\in %s |-> CASE %s]" % (tla_set(rec), " [] ".join("k = %d -> %d" % (k, c["interval"][k]) for k in rec)) if rec else "<<>>"
@@ -248,7 +251,7 @@ def cfg_for(c, mode, traises_sets="{{}}", fraises_sets="{{}}", times="{1, 2}", d
             "FnDefers": tla_fn(c["fn_defers"], range(1, max(c["F"]) + 1)),
             "TaskRaisesSets": traises_sets, "FnRaisesSets": fraises_sets,
             "TaskDoes": "<<" + ", ".join('<<"%s", %d, %d>>' % tuple(c.get("task_does", {}).get(k, ("none", 0, 0))) for k in range(1, n + 1)) + ">>"}
-    consts = {"K": tla_set(c["K"]), "Rec": tla_set(rec), "F": tla_set(c["F"]), "Times": times, "Deltas": deltas, "Steps": steps, "TickSteps": ticks, "MaxLevel": str(maxlevel), "MgrAtStart": "FALSE" if c.get("early") else "TRUE",
+    consts = {"K": tla_set(c["K"]), "Rec": tla_set(rec), "F": tla_set(c["F"]), "Times": times, "Deltas": deltas, "Steps": steps, "TickSteps": ticks, "OffGrid": offgrid, "MaxLevel": str(maxlevel), "MgrAtStart": "FALSE" if c.get("early") else "TRUE",
               "DropBatchOnRaise": "TRUE" if drop else "FALSE"}
     if mode == "mc":
         lines = ["SPECIFICATION Spec", "CONSTRAINT Bound", "CHECK_DEADLOCK FALSE"]
@@ -402,8 +405,11 @@ def random_ops(rng, c, n, times=(0, 1, 2, 3, 4, 5), deltas=(0, 1, 2), steps=(0, 
             ops.append(("at", rng.choice(one), now + rng.choice(times) - 1 if now else rng.choice(times)))
         elif r < 0.40 and one:
             ops.append(("after", rng.choice(one), rng.choice(deltas)))
-        elif r < 0.48 and c["rec"]:
+        elif r < 0.45 and c["rec"]:
             ops.append(("rec", rng.choice(c["rec"]), 0))
+        elif r < 0.48 and c["rec"]:
+            k = rng.choice(c["rec"])
+            ops.append(("reoff", k, rng.choice([0, 0, 1, c["interval"][k] - 1])))
         elif r < 0.58:
             ops.append(("suspend", rng.choice(c["K"]), 0))
         elif r < 0.66:
@@ -656,7 +662,7 @@ def main(tier, seed):
            deltas="{1}", steps="{0, 1, 2}", maxlevel=7 if thorough else 6)
     # the clock also moves between passes (Tick): installations are relative to the clock as it is then
     tk = dict(K=[1, 2], rec=[2], interval={2: 2}, offset={2: 1}, task_defers={}, F=[1], fn_defers={})
-    run_mc(chk, "tick", tk, traises_sets="{{}}", times="{1, 3}", deltas="{1}", steps="{0, 1}", ticks="{1}", maxlevel=7 if thorough else 6)
+    run_mc(chk, "tick", tk, traises_sets="{{}}", times="{1, 3}", deltas="{1}", steps="{0, 1}", ticks="{1}", offgrid="{0, 1}", maxlevel=7 if thorough else 6)
     # sanity / vacuity: the named deviation must be caught by the invariant
     run_mc(chk, "a_dev", a, expect_error=("DeferredExactlyOnceInOrder", "NothingDueLeftUnlessRaise"), fraises_sets="{{2}}", maxlevel=5, drop=True)
     # R: spec -> code
